@@ -86,3 +86,9 @@ def _f19(prop, case, violation):
 def _f21(prop, case, violation):
     # every differing group is a ligand group of a hetero residue whose set of recognised groups differs between frames
     return violation.get("sig") == "ligand-typing-frame"
+
+
+@predicate("F23")
+def _f23(prop, case, violation):
+    # one-residue chain (N and OXT in one residue) listed as whole-residue alternates: N+ only in the first alternate
+    return violation.get("sig") == "one-residue-chain-alternates"
